@@ -42,7 +42,8 @@ def run(ctx):
     import os
     tri = os.path.join(os.path.dirname(os.path.dirname(os.path.dirname(os.path.abspath(__file__)))), 'triage', 'c14')
     targets += [(None, gen.custom_target(os.path.join(tri, 'share.xml'), 'Share', 'SH')), (None, gen.custom_target(os.path.join(tri, 'collide.xml'), 'Collide', 'CO')),
-                (None, gen.custom_target(os.path.join(tri, 'chain.xml'), 'Chain', 'CH'))]
+                (None, gen.custom_target(os.path.join(tri, 'chain.xml'), 'Chain', 'CH')),
+                (None, gen.custom_fixt_target(os.path.join(tri, 'fixt', 'app.xml'), os.path.join(tri, 'fixt', 'transport.xml'), 'Pair', 'PR'))]
     totals = {'definitions': 0, 'shared': 0}
     progs, samples = 0, []
     for n, t in targets:
